@@ -40,8 +40,20 @@ func genC18(rng *rand.Rand, n int, emit func(Case), dist map[string]int) {
 			Rate: rate.Limit(R), Burst: burstCfg, ExpiresIn: time.Duration(E) * c18Tick})
 		store.VerifSetClock(func() time.Time { return base.Add(time.Duration(now) * c18Tick) })
 		ran := false
-		mw := middleware.RateLimiterWithConfig(middleware.RateLimiterConfig{Store: store,
-			IdentifierExtractor: func(c echo.Context) (string, error) { return c.Request().Header.Get("X-Id"), nil }})
+		rlCfg := middleware.RateLimiterConfig{Store: store,
+			IdentifierExtractor: func(c echo.Context) (string, error) { return c.Request().Header.Get("X-Id"), nil }}
+		switch rng.Intn(4) {
+		case 0: // a deny handler that writes the response itself and returns nil (as in the package documentation)
+			rlCfg.DenyHandler = func(c echo.Context, identifier string, err error) error {
+				return c.JSON(http.StatusTooManyRequests, map[string]string{"message": "slow down"})
+			}
+		case 1:
+			rlCfg.DenyHandler = func(c echo.Context, identifier string, err error) error {
+				return echo.NewHTTPError(http.StatusTooManyRequests, "custom deny")
+			}
+			rlCfg.BeforeFunc = func(c echo.Context) {}
+		}
+		mw := middleware.RateLimiterWithConfig(rlCfg)
 		h := mw(func(c echo.Context) error { ran = true; return nil })
 		e := echo.New()
 		nids := 1 + rng.Intn(4)
